@@ -59,7 +59,7 @@ func init() { register(&credProp{}) }
 func (p *credProp) ID() string { return "C18" }
 
 func (p *credProp) Rule() string {
-	return "scenario = pre-existing docker config document (unknown top-level keys, unknown per-entry fields, legacy URL keys) + Put/Get/Delete history on one file store; sequential histories are compared step by step with a model document and the file on disk; histories split over 2-4 tasks run under seeded interleavings and the final file, and what the same store answers afterwards for every address named, must equal the result of one sequential order (porcupine); for a sampled Put/Delete every mutating disk operation of its save is a crash point (complete enumeration) after which the file must be the complete old or complete new document; non-trivial = the file was rewritten at least once with foreign content to preserve, or a crash point k>1 was exercised, or >=2 tasks interleaved; distinct = distinct (event-trace hash, final document hash)"
+	return "scenario = pre-existing docker config document (unknown top-level keys, unknown per-entry fields, legacy URL keys) + Put/Get/Delete history on one file store; sequential histories are compared step by step with a model document and the file on disk; histories split over 2-4 tasks run under seeded interleavings and the final file, and what the same store answers afterwards for every address named, must equal the result of one sequential order (porcupine); for a sampled Put/Delete every mutating disk operation of its save is a crash point (complete enumeration) after which the file must be the complete old or complete new document (the same operation failing with EIO instead: then the call is repeated and must take effect, or another registry is stored and every other entry must survive that); non-trivial = the file was rewritten at least once with foreign content to preserve, or a crash point k>1 was exercised, or >=2 tasks interleaved; distinct = distinct (event-trace hash, final document hash)"
 }
 
 func (p *credProp) Components() map[string][]string {
@@ -480,6 +480,8 @@ func (p *credProp) sequential(rc *RunCtx, sc *Scenario, cp *CredParams, info *Ru
 	var v *Verdict
 	// one execution; crashK>0 freezes the disk before the k-th mutating op of the victim
 	var retried credRes
+	followed := false
+	followUp := CredOp{Op: "put", Addr: "follow-up.example", Cred: CredSpec{U: "fu", P: "fp"}}
 	run := func(dir string, crashK int, eio bool) (res simrt.Result, nmut int, before, after *credModel, path string) {
 		path = writeInitial(dir, cp.Initial)
 		fs, err := credentials.NewFileStore(path)
@@ -508,6 +510,13 @@ func (p *credProp) sequential(rc *RunCtx, sc *Scenario, cp *CredParams, info *Ru
 					got := execCred(fs, op)
 					simos.SetFailAtMut(0)
 					nmut = simos.MutCount() - m0
+					if crashK > 0 && eio && crashK%2 == 0 && op.Addr != followUp.Addr {
+						// the caller gives up on it and stores something for another registry: that save
+						// must keep every other entry, whichever of old and new document it started from
+						followed = true
+						retried = execCred(fs, followUp)
+						return
+					}
 					if crashK > 0 && eio {
 						// the caller tries again once the disk behaves: now the operation must take effect
 						retried = execCred(fs, op)
@@ -600,6 +609,7 @@ func (p *credProp) sequential(rc *RunCtx, sc *Scenario, cp *CredParams, info *Ru
 		info.MoreHashes = append(info.MoreHashes, simrt.Mix(uint64(k), simrt.Mix(strHash(before.key()), strHash(cp.Ops[cp.Victim].Op))))
 		// the same disk operation failing with EIO (the save may report it): old or new document all the same
 		dirE := filepath.Join(rc.DiskDir, fmt.Sprintf("e%d", k))
+		followed = false
 		rese, _, _, _, pathE := run(dirE, k, true)
 		evals++
 		for k2, c2 := range simos.Snapshot().Fired {
@@ -612,6 +622,23 @@ func (p *credProp) sequential(rc *RunCtx, sc *Scenario, cp *CredParams, info *Ru
 		}
 		if rese.Outcome != simrt.OK {
 			return violation("harness", "", "disk-error run did not complete: %s", rese.Outcome)
+		}
+		if followed {
+			if retried.Err != "" {
+				continue
+			}
+			b2, a2 := before.clone(), after.clone()
+			b2.apply(followUp)
+			a2.apply(followUp)
+			f1, f2 := docMatches(pathE, b2, cp.Initial), docMatches(pathE, a2, cp.Initial)
+			if f1 != "" && f2 != "" {
+				c2 := *cp
+				c2.OnlyK = k
+				sc.Params, _ = json.Marshal(c2)
+				return violation("entry-lost-after-failed-save", "", "victim %s: its mutating disk operation %d of %d failed with EIO; then %s succeeded, and the file is neither the old document plus that entry (%s) nor the new one plus it (%s)\nhistory: %v", cp.Ops[cp.Victim], k, nmut, followUp, f1, f2, cp.Ops[:cp.Victim])
+			}
+			info.Probes["other_registry_stored_after_failed_save"]++
+			continue
 		}
 		e1 := docMatches(pathE, before, cp.Initial)
 		e2 := docMatches(pathE, after, cp.Initial)
